@@ -169,7 +169,7 @@ async def _reconcile_steps(
                 )
             )
 
-        elif task.exception():
+        elif task.exception() is not None:
             error_outcome = StepResult(
                 result=result.Retry(
                     message=f"Unknown error ({task.exception()}) running Step ({task_name}), will retry.",
@@ -628,7 +628,7 @@ async def _for_each_reconciler(
                 )
             )
 
-        elif task.exception():
+        elif task.exception() is not None:
             outcomes.append(
                 StepResult(
                     result=result.Retry(
